@@ -385,24 +385,26 @@ structure Decoded where
 
 def le32 (bs : List Nat) : Nat := leVal (bs.take 4)
 
-def decodeContig (k mm : Nat) (gs : Array GroupD) (sample : List Nat) (a : Acc)
+/-- one descriptor of a contig: fetch, check the lengths, undo the orientation flag -/
+def contigStep (k mm : Nat) (gds : Array GroupD) (whatC : String)
+    (st : Acc × Array Ragc.Range.Seg) (di : Ragc.Details.Seg × Nat) : Acc × Array Ragc.Range.Seg :=
+  let (a, out) := st
+  let (d, i) := di
+  match getSegment mm gds d with
+  | .error e => (a.add "addressing" s!"{e} ({whatC} segment {i})", out.push ⟨d.rawLen, []⟩)
+  | .ok s =>
+    let a := if s.length = d.rawLen then a
+      else a.add "raw-length" s!"{whatC} segment {i}: descriptor {d.rawLen} decoded {s.length}"
+    let a := if i > 0 ∧ s.length < k then
+        a.add "segment-shorter-than-k" s!"{whatC} segment {i}: {s.length} < {k}" else a
+    let s := if d.rev then Ragc.Range.reverseComplementSegment s else s
+    (a, out.push ⟨d.rawLen, s⟩)
+
+def decodeContig (k mm : Nat) (gds : Array GroupD) (sample : List Nat) (a : Acc)
     (nd : List Nat × List Ragc.Details.Seg) : Acc × DContig :=
   let (name, descs) := nd
   let whatC := s!"{showName sample} {showName name}"
-  let (a, segs) := (List.zipIdx descs).foldl
-    (fun (st : Acc × Array Ragc.Range.Seg) (di : Ragc.Details.Seg × Nat) =>
-      let (a, out) := st
-      let (d, i) := di
-      match getSegment mm gs d with
-      | .error e => (a.add "addressing" s!"{e} ({whatC} segment {i})", out.push ⟨d.rawLen, []⟩)
-      | .ok s =>
-        let a := if s.length = d.rawLen then a
-          else a.add "raw-length" s!"{whatC} segment {i}: descriptor {d.rawLen} decoded {s.length}"
-        let a := if i > 0 ∧ s.length < k then
-            a.add "segment-shorter-than-k" s!"{whatC} segment {i}: {s.length} < {k}" else a
-        let s := if d.rev then Ragc.Range.reverseComplementSegment s else s
-        (a, out.push ⟨d.rawLen, s⟩))
-    (a, #[])
+  let (a, segs) := (List.zipIdx descs).foldl (contigStep k mm gds whatC) (a, #[])
   match Ragc.Range.reconstruct k segs.toList with
   | some bases => (a, ⟨name, descs, bases⟩)
   | none => (a, ⟨name, descs, []⟩)
@@ -453,28 +455,33 @@ def natOfDec (s : List Nat) : Option Nat :=
 
 def countP {α : Type} (l : List α) (p : α → Bool) : Nat := (l.filter p).length
 
-/-- **Entry point 2**: decode the whole archive with the supplied ZSTD decompression. -/
-def decodeArchive (bs : List Nat) (zd : List Nat → Option (List Nat)) : Except String Decoded := do
-  let o ← openArchive bs
-  let a : Acc := {}
-  -- fixed streams occur once
-  let a := ["file_type_info", "params", "collection-samples", "collection-contigs", "collection-details"].foldl
+/-! ### the stages of `decodeArchive` -/
+
+def fixedNamesChecked : List String :=
+  ["file_type_info", "params", "collection-samples", "collection-contigs", "collection-details"]
+
+/-- fixed streams occur once -/
+def checkFixedStreams (o : Opened) (a : Acc) : Acc :=
+  fixedNamesChecked.foldl
     (fun (a : Acc) n => if countP o.dir (fun st => st.name == str n) = 1 then a else a.add "fixed-stream" n) a
-  -- file_type_info: version 3.0, metadata = number of key/value pairs
-  let a ← (do
-    match o.dir.find? (fun st => st.name == str "file_type_info") with
-    | none => pure a
-    | some st =>
-      let ps ← readParts o.file st
-      match ps with
-      | [b] =>
-        let kv := parseTypeInfo b.1
-        let get (key : String) := (kv.find? (fun p => p.1 == str key)).bind (fun p => natOfDec p.2)
-        let a := if get "file_version_major" = some versionMajor ∧ get "file_version_minor" = some versionMinor
-          then a else a.add "file-version" "file_type_info does not say 3.0"
-        pure (if b.2 = kv.length then a else a.add "file-type-info-metadata" s!"{b.2} for {kv.length} pairs")
-      | _ => pure (a.add "file-version" "file_type_info has not exactly one part") : Except String Acc)
-  -- params: one part, metadata 0, four little-endian u32
+
+/-- file_type_info: version 3.0, metadata = number of key/value pairs -/
+def checkTypeInfo (o : Opened) (a : Acc) : Except String Acc := do
+  match o.dir.find? (fun st => st.name == str "file_type_info") with
+  | none => pure a
+  | some st =>
+    let ps ← readParts o.file st
+    match ps with
+    | [b] =>
+      let kv := parseTypeInfo b.1
+      let get (key : String) := (kv.find? (fun p => p.1 == str key)).bind (fun p => natOfDec p.2)
+      let a := if get "file_version_major" = some versionMajor ∧ get "file_version_minor" = some versionMinor
+        then a else a.add "file-version" "file_type_info does not say 3.0"
+      pure (if b.2 = kv.length then a else a.add "file-type-info-metadata" s!"{b.2} for {kv.length} pairs")
+    | _ => pure (a.add "file-version" "file_type_info has not exactly one part")
+
+/-- params: one part, metadata 0, four little-endian u32: `(k, min_match, segment_size)` -/
+def readParams (o : Opened) (a : Acc) : Except String (Acc × Nat × Nat × Nat) := do
   let pst ← findFixed o "params"
   let pps ← readParts o.file pst
   let pb ← match pps with
@@ -487,7 +494,24 @@ def decodeArchive (bs : List Nat) (zd : List Nat → Option (List Nat)) : Except
   let segSize := le32 (pb.1.drop 12)
   let a := if pb.2 = 0 then a else a.add "params-metadata" s!"{pb.2}"
   let a := if card = packCard then a else a.add "params-pack-cardinality" s!"{card}"
-  -- catalogue
+  pure (a, k, mm, segSize)
+
+abbrev ContigTable := List (List Nat × List Ragc.Details.Seg)
+
+/-- one step of the batch loop: `(acc, tables so far, samples loaded, batch index)` -/
+def batchStep (zd : List Nat → Option (List Nat)) (k segSize nS nB : Nat)
+    (st : Acc × Array ContigTable × Nat × Nat) (nd : Blob × DetailsPart) :
+    Except String (Acc × Array ContigTable × Nat × Nat) := do
+  let (a, out, loaded, idx) := st
+  let (a, batch) ← decodeBatch zd k segSize a idx (nS - loaded) nd.1 nd.2
+  let a := if batch.length = packCard ∨ (idx + 1 = nB ∧ loaded + batch.length = nS) then a
+    else a.add "collection-batches" s!"batch {idx} has {batch.length} samples"
+  pure (a, out ++ batch.toArray, loaded + batch.length, idx + 1)
+
+/-- the catalogue: sample names, and per sample the table contig name ↦ descriptors;
+also the number of batches -/
+def decodeCatalogue (zd : List Nat → Option (List Nat)) (o : Opened) (k segSize : Nat) (a : Acc) :
+    Except String (Acc × List (List Nat) × Array ContigTable × Nat) := do
   let c ← readCollection o
   let rawSamples ← match zd c.samples.1 with
     | some d => pure d
@@ -501,40 +525,44 @@ def decodeArchive (bs : List Nat) (zd : List Nat → Option (List Nat)) : Except
   let nB := (nS + packCard - 1) / packCard
   let a := if c.contigs.length = nB ∧ c.details.length = nB then a
     else a.add "collection-batches" s!"{nS} samples need {nB} batches, found {c.contigs.length} name parts and {c.details.length} descriptor parts"
-  let (a, tables, _, _) ← (List.zip c.contigs c.details).foldlM
-    (fun (st : Acc × Array (List (List Nat × List Ragc.Details.Seg)) × Nat × Nat) (nd : Blob × DetailsPart) => do
-      let (a, out, loaded, idx) := st
-      let (a, batch) ← decodeBatch zd k segSize a idx (nS - loaded) nd.1 nd.2
-      let a := if batch.length = packCard ∨ (idx + 1 = nB ∧ loaded + batch.length = nS) then a
-        else a.add "collection-batches" s!"batch {idx} has {batch.length} samples"
-      pure (a, out ++ batch.toArray, loaded + batch.length, idx + 1))
-    (a, #[], 0, 0)
+  let (a, tables, _, _) ← (List.zip c.contigs c.details).foldlM (batchStep zd k segSize nS nB) (a, #[], 0, 0)
   if tables.size ≠ nS then
     throw s!"collection: {nS} sample names but contig tables for {tables.size} samples"
-  -- segment streams
+  pure (a, sampleNames, tables, c.contigs.length)
+
+/-- segment streams: names canonical, one `r` and one `d` stream per group, every group decoded -/
+def decodeGroups (zd : List Nat → Option (List Nat)) (o : Opened) (a : Acc) :
+    Except String (Acc × Array GroupD) := do
   let xs ← xStreams o
   let a := xs.foldl (fun (a : Acc) x =>
     if x.name = xName x.group x.kind then a else a.add "stream-name" (showName x.name)) a
   let groups := xs.foldl addStream #[]
-  let (a, gds) := groups.foldl (decodeGroup zd) (a, #[])
-  -- every stream that holds data belongs to a group some descriptor uses
-  let allDescs := tables.toList.flatMap fun t => t.flatMap (·.2)
-  let usedIds := (allDescs.map (·.group)).eraseDups
-  let a := gds.foldl (fun (a : Acc) G =>
+  pure (groups.foldl (decodeGroup zd) (a, #[]))
+
+/-- every stream that holds data belongs to a group some descriptor uses -/
+def checkUnused (gds : Array GroupD) (usedIds : List Nat) (a : Acc) : Acc :=
+  gds.foldl (fun (a : Acc) G =>
     if (G.nRefParts = 0 ∧ G.packs.size = 0) ∨ usedIds.contains G.id then a
     else a.add "unused-group" (gname G.id)) a
-  -- contigs
-  let (a, samples) := (List.zip sampleNames tables.toList).foldl
-    (fun (st : Acc × Array DSample) (nt : List Nat × List (List Nat × List Ragc.Details.Seg)) =>
-      let (a, out) := st
-      let (a, cs) := nt.2.foldl
-        (fun (st : Acc × Array DContig) nd =>
-          let (a, c) := decodeContig k mm gds nt.1 st.1 nd
-          (a, st.2.push c))
-        (a, #[])
-      (a, out.push ⟨nt.1, cs.toList⟩))
-    (a, #[])
-  -- branch statistics
+
+def sampleStep (k mm : Nat) (gds : Array GroupD) (sample : List Nat) (st : Acc × Array DContig)
+    (nd : List Nat × List Ragc.Details.Seg) : Acc × Array DContig :=
+  let (a, c) := decodeContig k mm gds sample st.1 nd
+  (a, st.2.push c)
+
+def decodeSample (k mm : Nat) (gds : Array GroupD) (st : Acc × Array DSample)
+    (nt : List Nat × ContigTable) : Acc × Array DSample :=
+  let (a, out) := st
+  let (a, cs) := nt.2.foldl (sampleStep k mm gds nt.1) (a, #[])
+  (a, out.push ⟨nt.1, cs.toList⟩)
+
+def decodeSamples (k mm : Nat) (gds : Array GroupD) (sampleNames : List (List Nat))
+    (tables : Array ContigTable) (a : Acc) : Acc × Array DSample :=
+  (List.zip sampleNames tables.toList).foldl (decodeSample k mm gds) (a, #[])
+
+/-- branch statistics -/
+def statsOf (o : Opened) (gds : Array GroupD) (tables : Array ContigTable) (allDescs : List Ragc.Details.Seg)
+    (usedIds : List Nat) (nBatches nS : Nat) : List (String × Nat) :=
   let lz := gds.toList.filter (·.id ≥ noRawGroups)
   let raw := gds.toList.filter (fun G => G.id < noRawGroups ∧ G.packs.size > 0)
   let entries (G : GroupD) : Nat := G.packs.foldl (fun n p => n + p.size) 0
@@ -544,18 +572,31 @@ def decodeArchive (bs : List Nat) (zd : List Nat → Option (List Nat)) : Except
   let lzUsed := countP usedIds (· ≥ noRawGroups)
   let deltaDescs := countP allDescs (fun d => d.inGroup ≠ 0)
   let totalEntries := lz.foldl (fun n G => n + entries G) 0 + raw.foldl (fun n G => n + (entries G - 1)) 0
-  let stats : List (String × Nat) :=
-    [("lz_groups", lz.length), ("raw_groups", raw.length),
-     ("groups_multi_pack", countP gds.toList (·.packs.size ≥ 2)),
-     ("raw_group_ge50_ids", countP raw (fun G => entries G > packCard)),
-     ("empty_deltas", id0 - lzUsed), ("id_reuse", deltaDescs - totalEntries),
-     ("revcomp_segments", countP allDescs (·.rev)),
-     ("refs_raw", countP refKinds (· == .raw)), ("refs_plain", countP refKinds (· == .plain)),
-     ("refs_tuple", countP refKinds (· == .tuple)),
-     ("packs_raw", countP packKinds (· == .raw)), ("packs_compressed", countP packKinds (· != .raw)),
-     ("contigs_ge3_segments", countP (tables.toList.flatMap id) (fun c => c.2.length ≥ 3)),
-     ("contigs", (tables.toList.flatMap id).length), ("segments", allDescs.length),
-     ("batches", c.contigs.length), ("samples", nS), ("streams", o.dir.length)]
-  pure ⟨k, mm, segSize, samples.toList, a.violations.toList, stats⟩
+  [("lz_groups", lz.length), ("raw_groups", raw.length),
+   ("groups_multi_pack", countP gds.toList (·.packs.size ≥ 2)),
+   ("raw_group_ge50_ids", countP raw (fun G => entries G > packCard)),
+   ("empty_deltas", id0 - lzUsed), ("id_reuse", deltaDescs - totalEntries),
+   ("revcomp_segments", countP allDescs (·.rev)),
+   ("refs_raw", countP refKinds (· == .raw)), ("refs_plain", countP refKinds (· == .plain)),
+   ("refs_tuple", countP refKinds (· == .tuple)),
+   ("packs_raw", countP packKinds (· == .raw)), ("packs_compressed", countP packKinds (· != .raw)),
+   ("contigs_ge3_segments", countP (tables.toList.flatMap id) (fun c => c.2.length ≥ 3)),
+   ("contigs", (tables.toList.flatMap id).length), ("segments", allDescs.length),
+   ("batches", nBatches), ("samples", nS), ("streams", o.dir.length)]
+
+/-- **Entry point 2**: decode the whole archive with the supplied ZSTD decompression. -/
+def decodeArchive (bs : List Nat) (zd : List Nat → Option (List Nat)) : Except String Decoded := do
+  let o ← openArchive bs
+  let a := checkFixedStreams o {}
+  let a ← checkTypeInfo o a
+  let (a, k, mm, segSize) ← readParams o a
+  let (a, sampleNames, tables, nBatches) ← decodeCatalogue zd o k segSize a
+  let (a, gds) ← decodeGroups zd o a
+  let allDescs := tables.toList.flatMap fun t => t.flatMap (·.2)
+  let usedIds := (allDescs.map (·.group)).eraseDups
+  let a := checkUnused gds usedIds a
+  let (a, samples) := decodeSamples k mm gds sampleNames tables a
+  pure ⟨k, mm, segSize, samples.toList, a.violations.toList,
+    statsOf o gds tables allDescs usedIds nBatches sampleNames.length⟩
 
 end Ragc.Agc3
